@@ -206,9 +206,33 @@ package atree
 //@   modifies alloc
 //@   loop 1: invariant 0 <= i && i <= len(e.elems) && (forall j :: 0 <= j && j < i ==> !keq(key, e.elems[j].key))
 
-//@ func (e *singleElements) Remove(storage, digester, level, hkey, comparator, key) (k, v, err)  serves C02 C12 C18
+//@ pred ssz(s *singleElement) = s.size
+
+//@ # insertion into a last-level collision list: an existing key is updated in place (the list and its order are untouched),
+//@ # a new key is appended at the end (insertion order is the enumeration order of fully colliding keys)
+//@ func (e *singleElements) Set(storage, address, b, digester, level, hkey, comparator, hip, key, value) (ks, existing, err)  serves C02 C06 C13 C18
+//@   requires wfSEs(e) && storage != nil && digester != nil && comparator != nil && key != nil && value != nil && e.size <= 4294900000
+//@   requires forall j :: 0 <= j && j < len(e.elems) ==> e.elems[j].key != nil && e.elems[j].value != nil && bs(e.elems[j].key) <= maxInlineMapKeySize
+//@   assume 6 + sum(ssz, e.elems, len(e.elems)) <= 4290000000 because "the size of a collision list is bounded by the slab size limit (C05); keeps uint32 size arithmetic in range"
+//@   assume (forall s *singleElement :: s != nil ==> s.size <= 2000000 && s.size >= 0) because "element sizes are bounded by the inline limits (C05)"
+//@   assume (forall st Storable :: bs(st) <= 2000000) because "storable sizes are bounded by the inline limits (C05); keeps uint32 size arithmetic in range"
+//@   ensures[C02 C13] err == nil && (forall j :: 0 <= j && j < len(old(e.elems)) ==> !keq(key, old(e.elems)[j].key)) ==>
+//@        existing == nil && len(e.elems) == len(old(e.elems)) + 1 && (forall j :: 0 <= j && j < len(old(e.elems)) ==> e.elems[j] == old(e.elems)[j]) &&
+//@        fresh(e.elems[len(e.elems) - 1]) && ks == e.elems[len(e.elems) - 1].key
+//@   ensures[C02 C13] err == nil && (exists j :: 0 <= j && j < len(old(e.elems)) && keq(key, old(e.elems)[j].key)) ==> e.elems == old(e.elems) && existing != nil
+//@   ensures[C18] err != nil ==> e.elems == old(e.elems) && e.size == old(e.size)
+//@   modifies e.elems, e.size, singleElement.value, singleElement.size, ghost.sto, ghost.stored, ghost.touched, alloc,
+//@        as(valueRoot(key), *ArrayDataSlab).header, as(valueRoot(key), *ArrayDataSlab).inlined, as(valueRoot(key), *MapDataSlab).header, as(valueRoot(key), *MapDataSlab).inlined,
+//@        as(valueRoot(value), *ArrayDataSlab).header, as(valueRoot(value), *ArrayDataSlab).inlined, as(valueRoot(value), *MapDataSlab).header, as(valueRoot(value), *MapDataSlab).inlined
+//@   loop 1: invariant 0 <= i && i <= len(e.elems) && e.elems == old(e.elems) && e.size == old(e.size) && (forall j :: 0 <= j && j < i ==> !keq(key, e.elems[j].key)) &&
+//@        heapeq(ArrayDataSlab.header) && heapeq(ArrayDataSlab.inlined) && heapeq(MapDataSlab.header) && heapeq(MapDataSlab.inlined) &&
+//@        heapeq(ArrayMetaDataSlab.header) && heapeq(MapMetaDataSlab.header) && heapeq(singleElement.value) && heapeq(singleElement.size) && heapeq(singleElement.key) &&
+//@        sto == old(sto) && stored == old(stored) && touched == old(touched)
+//@   loop 2: invariant size == 6 + sum(ssz, e.elems, i) && e.elems == old(e.elems)
+
+//@ func (e *singleElements) Remove(storage, digester, level, hkey, comparator, key) (k, v, err)  serves C02 C12 C13 C18
 //@   requires wfSEs(e) && digester != nil && comparator != nil
-//@   ensures[C02] err == nil ==> len(e.elems) == len(old(e.elems)) - 1 &&
+//@   ensures[C02 C13] err == nil ==> len(e.elems) == len(old(e.elems)) - 1 &&
 //@        (exists p :: 0 <= p && p < len(old(e.elems)) && k == old(e.elems)[p].key && v == old(e.elems)[p].value && keq(key, old(e.elems)[p].key) &&
 //@           (forall j :: 0 <= j && j < p ==> e.elems[j] == old(e.elems)[j] && !keq(key, old(e.elems)[j].key)) &&
 //@           (forall j :: p <= j && j < len(e.elems) ==> e.elems[j] == old(e.elems)[j + 1]))
